@@ -229,7 +229,9 @@ class Report:
             "least one fact extracted from the source (not a constant of the checker); "
             "distinct by obligation key",
             "samples": samples,
-            "obligations": len(obls),
+            # obligations of the claim: a listed known finding is an unenforced assumption / recorded defect,
+            # reported separately (known_findings_matched), not a proof obligation
+            "obligations": len([o for o in obls if o.key not in {e["key"] for _, e in matched}]),
             "discharged": n_ok,
             "checker_cmd": cmd,
             "trusted_base": self.trusted_base,
